@@ -135,16 +135,23 @@ def doc_of(text):
 class Fixture:
     """one table written both ways + everything loaded from the whole files"""
 
-    def __init__(self, spec, route, gen, n):
+    def __init__(self, spec, route, gen, n, poke=None, name=None):
+        import random
         import h5py
         from biom import Table
-        self.spec, self.route, self.gen = spec, route, gen
+        self.spec, self.route, self.gen, self.poke = spec, route, gen, poke
         os.makedirs(TMP, exist_ok=True)
-        self.path = os.path.join(TMP, "t%d.biom" % n)
+        self.path = os.path.join(TMP, name or ("t%d.biom" % n))
         t = core.build(spec, route)
+        # the writers see the table in whatever layout earlier reads left behind
+        prng = random.Random(poke) if poke is not None else None
+        self.poked = core.poke_layout(t, prng, 3) if prng else []
         with h5py.File(self.path, "w") as f:
             t.to_hdf5(f, gen)
+        if prng:
+            self.poked += core.poke_layout(t, prng, 3)
         self.text = t.to_json(gen)
+        self._pf = {}
         with h5py.File(self.path, "r") as f:
             self.full_h5 = Table.from_hdf5(f)
             self.view = self._view(f)
@@ -164,9 +171,36 @@ class Fixture:
         return {"observation": grp("observation"), "sample": grp("sample"),
                 "shape": [int(x) for x in f.attrs["shape"]], "type": self.full_h5.type}
 
+    def with_parse_fs(self, name):
+        """(full obs, file view) when the file is loaded with a custom parser for one category"""
+        import copy
+        import h5py
+        from biom import Table
+        if name not in self._pf:
+            with h5py.File(self.path, "r") as f:
+                full = Table.from_hdf5(f, parse_fs=PARSE_FS[name])
+            view = copy.deepcopy(self.view)
+            for ax in ("observation", "sample"):
+                view[ax]["md"] = core.canon_md(full.metadata(axis=ax))
+            self._pf[name] = (core.table_obs(full), view)
+        return self._pf[name]
+
+    def unchanged(self):
+        """the table loaded from the whole file at the start still reads the same"""
+        return core.table_obs(self.full_h5) == self.full_h5_obs
+
     def close(self):
         if os.path.exists(self.path):
             os.remove(self.path)
+
+
+def _pf_join(row):
+    return "|".join(x.decode("utf8") if isinstance(x, bytes) else str(x) for x in row if len(x))
+
+
+# custom metadata parsers (from_hdf5's parse_fs), by name
+PARSE_FS = {"tax-join": {"taxonomy": _pf_join}, "grp-upper": {"grp": lambda x: (x.decode("utf8") if isinstance(x, bytes)
+                                                                              else str(x)).upper()}}
 
 
 def as_container(ids, how):
@@ -177,25 +211,47 @@ def as_container(ids, how):
         return np.array(ids)
     if how == "bytes":
         return [i.encode("utf8") for i in ids]
+    if how == "array-wide":
+        return np.array(ids, dtype="<U%d" % (max(len(i) for i in ids) + 40))
+    if how == "array-object":
+        return np.array(ids, dtype=object)
     return list(ids)
 
 
-def real_result(fx, variant, ids, axis, ser="writer", how="list", form="str"):
+def make_call(fx, variant, ids, axis, ser="writer", how="list", form="str", opts=None, handle=None, text=None):
+    """the real call as a thunk; `handle` / `text`: an already open HDF5 handle / an existing text object to re-use"""
+    import contextlib
     import h5py
     from biom import Table
     from biom.parse import parse_biom_table
     from biom.cli.table_subsetter import _subset_table
+    opts = opts or {}
+    pf = PARSE_FS[opts["parse_fs"]] if opts.get("parse_fs") else None
+
+    def opened():
+        return contextlib.nullcontext(handle) if handle is not None else h5py.File(fx.path, "r")
     if variant == "h5":
         def f():
-            with h5py.File(fx.path, "r") as h:
-                return Table.from_hdf5(h, ids=as_container(ids, how), axis=axis)
+            with opened() as h:
+                c = as_container(ids, how)
+                if opts.get("positional"):
+                    return Table.from_hdf5(h, c, axis, pf, True)
+                if opts.get("explicit_md"):
+                    return Table.from_hdf5(h, ids=c, axis=axis, parse_fs=pf, subset_with_metadata=True)
+                if pf is not None:
+                    return Table.from_hdf5(h, ids=c, axis=axis, parse_fs=pf)
+                return Table.from_hdf5(h, ids=c, axis=axis)
     elif variant == "h5nomd":
         def f():
-            with h5py.File(fx.path, "r") as h:
+            with opened() as h:
+                if opts.get("positional"):
+                    return Table.from_hdf5(h, as_container(ids, how), axis, None, False)
                 return Table.from_hdf5(h, ids=as_container(ids, how), axis=axis, subset_with_metadata=False)
     elif variant == "parseh5":
         def f():
-            with h5py.File(fx.path, "r") as h:
+            with opened() as h:
+                if opts.get("positional"):
+                    return parse_biom_table(h, list(ids), axis)
                 return parse_biom_table(h, ids=list(ids), axis=axis)
     elif variant == "cmdh5":
         def f():
@@ -203,27 +259,40 @@ def real_result(fx, variant, ids, axis, ser="writer", how="list", form="str"):
             assert fmt == "hdf5"
             return t
     elif variant == "jsonparse":
-        text = serialise(fx.text, ser)
+        txt = text if text is not None else serialise(fx.text, ser)
 
         def f():
             if form == "handle":
-                return parse_biom_table(io.StringIO(text), ids=list(ids), axis=axis)
+                return parse_biom_table(io.StringIO(txt), ids=list(ids), axis=axis)
             if form == "lines":
-                return parse_biom_table(text.splitlines(True), ids=list(ids), axis=axis)
-            return parse_biom_table(text, ids=list(ids), axis=axis)
+                return parse_biom_table(txt.splitlines(True), ids=list(ids), axis=axis)
+            if opts.get("positional"):
+                return parse_biom_table(txt, list(ids), axis, False)
+            return parse_biom_table(txt, ids=list(ids), axis=axis)
     elif variant == "cmdjson":
-        text = serialise(fx.text, ser)
+        txt = text if text is not None else serialise(fx.text, ser)
 
         def f():
-            gen, fmt = _subset_table(None, text, axis, list(ids))
+            gen, fmt = _subset_table(None, txt, axis, ids if opts.get("same_list") else list(ids))
             assert fmt == "json"
             return Table.from_json(json.loads("".join(gen)))
     else:
         raise ValueError(variant)
-    return res_of(f)
+    if opts.get("profile"):
+        import biom.err
+
+        def g():
+            with biom.err.errstate(empty=opts["profile"]):
+                return f()
+        return g
+    return f
 
 
-def cli_result(fx, kind, ids, axis, n):
+def real_result(fx, variant, ids, axis, ser="writer", how="list", form="str", opts=None):
+    return res_of(make_call(fx, variant, ids, axis, ser, how, form, opts))
+
+
+def cli_result(fx, kind, ids, axis, n, inj_path=None):
     """the click sub-command itself (never the group: it closes fd 1), output file loaded again"""
     import h5py
     from click.testing import CliRunner
@@ -231,21 +300,24 @@ def cli_result(fx, kind, ids, axis, n):
     from biom.cli.table_subsetter import subset_table
     idf = os.path.join(TMP, "ids%d.txt" % n)
     out = os.path.join(TMP, "out%d.biom" % n)
-    inj = os.path.join(TMP, "in%d.json" % n)
+    inj = inj_path or os.path.join(TMP, "in%d.json" % n)
+    long_flags = n % 2 == 1
+    before = open(fx.path, "rb").read() if kind == "cmdh5" else None
     with open(idf, "w", encoding="utf8") as f:
         f.write("#ids\n")
         for i in ids:
             f.write(i + "\tignored\n")
     try:
         if kind == "cmdh5":
-            args = ["-i", fx.path]
+            args = ["--input-hdf5-fp" if long_flags else "-i", fx.path]
         else:
             with open(inj, "w", encoding="utf8") as f:
                 f.write(fx.text)
-            args = ["-j", inj]
+            args = ["--input-json-fp" if long_flags else "-j", inj]
+        rest = ["--axis", axis, "--ids", idf, "--output-fp", out] if long_flags else ["-a", axis, "-s", idf, "-o", out]
 
         def f():
-            r = CliRunner().invoke(subset_table, args + ["-a", axis, "-s", idf, "-o", out])
+            r = CliRunner().invoke(subset_table, args + rest)
             if r.exception is not None and not isinstance(r.exception, SystemExit):
                 raise r.exception
             if r.exit_code != 0:
@@ -255,7 +327,10 @@ def cli_result(fx, kind, ids, axis, n):
                     return Table.from_hdf5(h)
             with open(out, encoding="utf8") as h:
                 return Table.from_json(json.load(h))
-        return res_of(f)
+        res, note = res_of(f)
+        if before is not None and open(fx.path, "rb").read() != before:
+            note = "the command modified its input file"
+        return res, note
     finally:
         for p in (idf, out, inj):
             if os.path.exists(p):
@@ -264,29 +339,45 @@ def cli_result(fx, kind, ids, axis, n):
 
 # ----------------------------------------------------------------------------- one case
 def check_case(ctx, fx, variant, ids, axis, ser="writer", how="list", form="str", tags=(), cli=False,
-               result=None):
-    inp = {"spec": fx.spec, "route": fx.route, "gen": fx.gen, "variant": variant, "ids": list(ids),
-           "axis": axis, "ser": ser, "how": how, "form": form, "cli": cli}
+               result=None, opts=None, inj_path=None):
+    opts = opts or {}
+    inp = {"spec": fx.spec, "route": fx.route, "gen": fx.gen, "poke": fx.poke, "variant": variant, "ids": list(ids),
+           "axis": axis, "ser": ser, "how": how, "form": form, "cli": cli, "opts": opts}
     axis_ids = fx.spec["samp"] if axis == "sample" else fx.spec["obs"]
     known = all(i in axis_ids for i in ids)
     ctx.case(inp, nontrivial=len(axis_ids) >= 2)
     if result is None:
         if cli:
-            result, note = cli_result(fx, variant, ids, axis, ctx.evaluations)
+            result, note = cli_result(fx, variant, ids, axis, ctx.evaluations, inj_path)
         else:
-            result, note = real_result(fx, variant, ids, axis, ser, how, form)
+            result, note = real_result(fx, variant, ids, axis, ser, how, form, opts)
     else:
         note = None
     is_json = variant in ("jsonparse", "cmdjson")
+    full, view = fx.full_h5_obs, fx.view
+    if opts.get("parse_fs") and variant != "h5nomd" and not is_json:
+        full, view = fx.with_parse_fs(opts["parse_fs"])
     req = {"op": "subset", "variant": variant, "axis": axis, "ids": list(ids),
-           "full": fx.full_json_obs if is_json else fx.full_h5_obs, "result": result}
+           "full": fx.full_json_obs if is_json else full, "result": result}
     if is_json:
         req["doc"] = fx.doc
     else:
-        req["file"] = fx.view
+        req["file"] = view
     r = ctx.driver.ask(req)
     case = {"input": inp, "request": req}
     tags = list(tags) + [variant, "axis=" + axis, "ser=" + ser] + (fx.tags if variant == "cmdjson" else [])
+    for k, v in sorted(opts.items()):
+        ctx.count("opt:%s=%s" % (k, v))
+    if opts.get("profile") == "raise" and "ok" in r["model"] and known and len(set(ids)) == len(ids):
+        # an emptied table under errstate(empty='raise'): load-all-then-filter raises there too
+        m = r["model"]["ok"]
+        if not m["obs"] or not m["samp"]:
+            ctx.count("profile=raise:empty-result:" + ("raised" if "error" in result else "returned"))
+            if "error" not in result:
+                ctx.fail(case, "C14.holds: empty result returned under errstate(empty='raise')", tags)
+            elif result["error"] != "TableException":
+                ctx.fail(case, "C14.holds: wrong error under errstate(empty='raise'): " + result["error"], tags)
+            return r
     ctx.count("variant=" + variant)
     ctx.count("axis=" + axis)
     if variant == "cmdjson":
@@ -365,7 +456,7 @@ SAFE_ODD = [x for x in core.ODD_IDS if not scanner_confused(x)]
 
 def gen_ids(rng, n, prefix):
     pool = [prefix + x for x in core.ASCII_IDS] + [prefix + x for x in SAFE_ODD] + \
-           [prefix + x for x in ["[b]", "{c}", 'q"q"', "a,b", "k:v", "sp ace ", "ñandú", "\\", "tab-less"]]
+           [prefix + x for x in ["[b]", "{c}", 'q"q"', "a,b", "k:v", "sp ace ", "ñandú", "\\", "tab-less", "end\n", "ééééééééé", "日本語のサンプル"]]
     rng.shuffle(pool)
     return pool[:n]
 
@@ -429,6 +520,10 @@ def unknown_candidates(axis_ids):
         add("lead-blank", base, " " + base)
         add("nul-tail", base, base + "\x00x")
     add("far", longest, "zz-not-there")
+    for u in core.tricky_unknown_ids(axis_ids):
+        base = next((i for i in axis_ids if u.startswith(i) or i.startswith(u) or u.strip().lower() == i.lower()),
+                    longest)
+        add("shared-helper", base, u)
     return out
 
 
@@ -458,23 +553,103 @@ def unknown_requests(rng, axis_ids, quick=True):
     return reqs
 
 
+PROFILES = ["raise", "warn", "call"]
+
+
+def gen_opts(rng, fx, variant):
+    """rarely used arguments and non-default error profiles, for a share of the calls"""
+    o = {}
+    c = rng.random()
+    if c < 0.12:
+        o["profile"] = rng.choice(PROFILES)
+    elif c < 0.20 and variant in ("h5", "h5nomd", "parseh5", "jsonparse"):
+        o["positional"] = True
+    elif c < 0.26 and variant == "h5":
+        o["explicit_md"] = True
+    elif c < 0.36 and variant in ("h5", "h5nomd"):
+        cats = set(k for md in (fx.spec.get("omd"), fx.spec.get("smd")) if md for e in md for k in e)
+        names = [n for n in PARSE_FS if set(PARSE_FS[n]) & cats]
+        if names:
+            o["parse_fs"] = rng.choice(names)
+    return o or None
+
+
+def handle_sequence(ctx, fx, rng):
+    """several subset reads on ONE open handle, in random order, with a refused request in the middle; every
+    returned table is observed at once, then changed in place; the same request is then read again"""
+    import h5py
+    import numpy as np
+    from biom.exception import TableException
+    plan = []
+    for _ in range(rng.randint(3, 5)):
+        axis = rng.choice(["sample", "observation"])
+        axis_ids = fx.spec["samp"] if axis == "sample" else fx.spec["obs"]
+        ids = rng.sample(axis_ids, rng.randint(1, len(axis_ids)))
+        plan.append((rng.choice(["h5", "h5nomd", "parseh5", "h5"]), axis, ids))
+    axis_ids = fx.spec["samp"]
+    plan.insert(rng.randrange(len(plan) + 1), ("h5", "sample", [max(axis_ids, key=len) + "0"] + axis_ids[1:]))
+    plan.append(plan[0])                      # asked again after its first answer was changed in place
+    out, keep_alive = [], []
+    with h5py.File(fx.path, "r") as h:
+        for variant, axis, ids in plan:
+            try:
+                t = make_call(fx, variant, ids, axis, handle=h)()
+                res = {"ok": core.table_obs(t)}
+            except Exception as e:  # noqa
+                t, res = None, {"error": core.err_name(e)}
+            out.append((variant, axis, ids, res))
+            if t is not None and t.shape[0] and t.shape[1]:
+                keep_alive.append(t)
+                try:
+                    t.transform(lambda v, i, m: v * 3 + 1, axis=rng.choice(["sample", "observation"]), inplace=True)
+                    t.update_ids({i: "zz" + i for i in t.ids()}, axis="sample", inplace=True)
+                    t.add_metadata({i: {"k": "changed"} for i in t.ids(axis="observation")}, axis="observation")
+                    md = t.metadata(axis="observation")
+                    if md:
+                        md[0]["grp"] = "changed"
+                except (TableException, ValueError, TypeError):
+                    pass
+    for variant, axis, ids, res in out:
+        check_case(ctx, fx, variant, ids, axis, result=res, tags=["same-handle"])
+    ctx.count("sequence=same-handle")
+    # one text object, one list object for the request, several calls
+    ser = rng.choice(MAIN_SERS)
+    text = serialise(fx.text, ser)
+    axis = rng.choice(["sample", "observation"])
+    axis_ids = list(fx.spec["samp"] if axis == "sample" else fx.spec["obs"])
+    rng.shuffle(axis_ids)
+    req = []
+    for i in axis_ids[:4]:
+        req.append(i)                         # the SAME list object grows between the calls
+        for variant in rng.sample(["cmdjson", "jsonparse"], 2):
+            res, note = res_of(make_call(fx, variant, req, axis, ser=ser, text=text, opts={"same_list": True}))
+            check_case(ctx, fx, variant, list(req), axis, ser=ser, result=res, tags=["same-text-object"])
+    other = "observation" if axis == "sample" else "sample"
+    oid = (fx.spec["obs"] if axis == "sample" else fx.spec["samp"])[:1]
+    res, note = res_of(make_call(fx, "cmdjson", oid, other, ser=ser, text=text))
+    check_case(ctx, fx, "cmdjson", oid, other, ser=ser, result=res, tags=["same-text-object"])
+    ctx.count("sequence=same-text-object")
+
+
 def run_fixture(ctx, fx, rng, quick, tags=(), sers=MAIN_SERS, light=False):
     for axis, axis_ids in (("sample", fx.spec["samp"]), ("observation", fx.spec["obs"])):
         reqs = requests_for(rng, axis_ids, quick)
         if light:
             reqs = reqs[:3]
         for ids in reqs:
-            how = rng.choice(["list", "list", "tuple", "array"])
-            check_case(ctx, fx, "h5", ids, axis, how=how, tags=tags)
-            check_case(ctx, fx, "h5nomd", ids, axis, how=rng.choice(["list", "tuple", "bytes"]), tags=tags)
+            how = rng.choice(["list", "list", "tuple", "array", "array-wide", "array-object"])
+            check_case(ctx, fx, "h5", ids, axis, how=how, tags=tags, opts=gen_opts(rng, fx, "h5"))
+            check_case(ctx, fx, "h5nomd", ids, axis, how=rng.choice(["list", "tuple", "bytes", "array-object"]),
+                       tags=tags, opts=gen_opts(rng, fx, "h5nomd"))
             if rng.random() < 0.4:
-                check_case(ctx, fx, "parseh5", ids, axis, tags=tags)
+                check_case(ctx, fx, "parseh5", ids, axis, tags=tags, opts=gen_opts(rng, fx, "parseh5"))
             if rng.random() < 0.4:
-                check_case(ctx, fx, "cmdh5", ids, axis, tags=tags)
-            check_case(ctx, fx, "jsonparse", ids, axis, ser=rng.choice(sers),
-                       form=rng.choice(["str", "handle", "lines"]), tags=tags)
+                check_case(ctx, fx, "cmdh5", ids, axis, tags=tags, opts=gen_opts(rng, fx, "cmdh5"))
+            form = rng.choice(["str", "handle", "lines"])
+            check_case(ctx, fx, "jsonparse", ids, axis, ser=rng.choice(sers), form=form, tags=tags,
+                       opts=gen_opts(rng, fx, "jsonparse") if form == "str" else None)
             for ser in sers:
-                check_case(ctx, fx, "cmdjson", ids, axis, ser=ser, tags=tags)
+                check_case(ctx, fx, "cmdjson", ids, axis, ser=ser, tags=tags, opts=gen_opts(rng, fx, "cmdjson"))
         for kind, ids in unknown_requests(rng, axis_ids, quick):
             utags = list(tags) + ["unknown-id", "unknown=" + kind]
             ctx.count("unknown-kind=" + kind)
@@ -492,6 +667,11 @@ def run_fixture(ctx, fx, rng, quick, tags=(), sers=MAIN_SERS, light=False):
         if not fx.tags:
             for ser in sers:
                 check_text(ctx, fx, reqs[rng.randrange(len(reqs))], axis, ser)
+    if not light:
+        handle_sequence(ctx, fx, rng)
+    if not fx.unchanged():
+        ctx.diverge({"input": {"spec": fx.spec, "route": fx.route, "gen": fx.gen, "poke": fx.poke}},
+                    "the table loaded from the whole file changed while subsets were read", list(tags))
 
 
 # the repaired defects, original failing inputs first (corpus/probes/p14.py, p14c.py + the two
@@ -587,7 +767,8 @@ def wide_stream(ctx, rng, n0, quick):
             if not quick:
                 rng.shuffle(pairs)
             # the three serialisations on every pair; the other readers on the pairs given ascending
-            sweep(fx, axis, [p for p in pairs if p[0] > p[1]], WIDE_SERS, symmetric=False)
+            sweep(fx, axis, [p for p in pairs if p[0] > p[1]], WIDE_SERS if not quick else WIDE_SERS[n % 3:][:1],
+                  symmetric=False)
             sweep(fx, axis, [p for p in pairs if p[0] < p[1]], WIDE_SERS, symmetric=True)
             for ser in WIDE_SERS:
                 check_text(ctx, fx, [fx.spec["samp" if axis == "sample" else "obs"][p] for p in (1, 8)], axis, ser)
@@ -609,6 +790,121 @@ def wide_stream(ctx, rng, n0, quick):
             fx.close()
     ctx.count("stream=wide-axis")
     return n
+
+
+def large_stream(ctx, rng, n0, quick):
+    """size thresholds: >= 64 IDs on the sliced axis, requests in non-axis order; a JSON text >= 64 KiB"""
+    n = n0
+    tags = ["large"]
+    for axis in ("sample", "observation"):
+        n += 1
+        spec = core.wide_spec(rng, axis=axis, md=True)
+        fx = Fixture(spec, rng.choice(["csr", "csc", "coo"]), "x", n, poke=rng.randrange(10 ** 6))
+        try:
+            axis_ids = spec["samp"] if axis == "sample" else spec["obs"]
+            k = len(axis_ids)
+            reqs = [rng.sample(axis_ids, rng.randint(5, 12)), list(reversed(axis_ids))[1:],
+                    [axis_ids[k - 1], axis_ids[63], axis_ids[0], axis_ids[64 % k]], [axis_ids[k - 1]]]
+            for j, ids in enumerate(reqs):
+                for variant in ("h5", "h5nomd", "parseh5", "cmdh5", "jsonparse"):
+                    check_case(ctx, fx, variant, ids, axis, tags=tags, how=["list", "array"][j % 2])
+                check_case(ctx, fx, "cmdjson", ids, axis, ser=WIDE_SERS[j % 3], tags=tags)
+            other = "observation" if axis == "sample" else "sample"
+            oid = (spec["obs"] if axis == "sample" else spec["samp"])[-1:]
+            for variant in ("h5", "h5nomd", "jsonparse", "cmdjson"):
+                check_case(ctx, fx, variant, oid, other, tags=tags)
+            for u in (axis_ids[6] + "4", axis_ids[10][:-1] + "x", axis_ids[k - 1] + "0"):
+                if u not in axis_ids:
+                    for variant in ("h5", "h5nomd", "cmdh5", "cmdjson"):
+                        check_case(ctx, fx, variant, [u] + axis_ids[:6], axis, tags=tags + ["unknown-id"])
+            ctx.count("large:axis>=64")
+        finally:
+            fx.close()
+    # a text of at least 64 KiB (dense 90 x 62)
+    n += 1
+    spec = {"obs": ["o%03d" % i for i in range(90)], "samp": ["s%03d" % j for j in range(62)],
+            "rows": [[float(1 + (i * 7 + j * 13) % 97) for j in range(62)] for i in range(90)],
+            "omd": None, "smd": None, "type": None}
+    fx = Fixture(spec, "dense", "x", n)
+    try:
+        size = len(fx.text)
+        ctx.count("large:text>=64KiB" if size >= 65536 else "large:text<64KiB(%d)" % size)
+        picks = [("sample", [spec["samp"][j] for j in (61, 8, 1, 33)]),
+                 ("observation", [spec["obs"][i] for i in (89, 64, 0, 9, 8)])]
+        for j, (axis, ids) in enumerate(picks):
+            check_case(ctx, fx, "cmdjson", ids, axis, ser=WIDE_SERS[j], tags=tags)
+            check_case(ctx, fx, "jsonparse", ids, axis, tags=tags)
+            check_case(ctx, fx, "h5", ids, axis, tags=tags)
+        check_text(ctx, fx, picks[0][1], "sample", "writer")
+    finally:
+        fx.close()
+    return n
+
+
+def state_stream(ctx, rng, n0):
+    """process-level state and path re-use: unusual optional arguments first, then the default calls must be
+    unaffected; one path carrying different tables and different formats one after the other"""
+    import h5py
+    from biom import Table
+    n = n0 + 1
+    a = {"obs": ["O1", "O2", "O3"], "samp": ["S1", "S2", "S3", "S4"],
+         "rows": [[1, 0, 2, 0], [0, 0, 0, 5], [3, 4, 0, 0]],
+         "omd": [{"taxonomy": ["k__A", "p__x"], "grp": "a"}, {"taxonomy": ["k__B", "p__y"], "grp": "b"},
+                 {"taxonomy": ["k__C", "p__z"], "grp": "c"}],
+         "smd": [{"grp": "u"}, {"grp": "v"}, {"grp": "w"}, {"grp": "x"}], "type": "OTU table"}
+    b = {"obs": ["O3", "O1", "P9"], "samp": ["S4", "S1"], "rows": [[7, 0], [0, 8], [9, 9]],
+         "omd": None, "smd": [{"grp": "q"}, {"grp": "r"}], "type": None}
+    tags = ["process-state"]
+    fx = Fixture(a, "csc", "x", n, name="reuse.biom")
+    try:
+        def snap():
+            out = []
+            for variant, axis, ids in (("h5", "sample", ["S3", "S1"]), ("h5", "observation", ["O2"]),
+                                       ("parseh5", "observation", ["O3", "O1"]), ("cmdh5", "sample", ["S4"])):
+                out.append(real_result(fx, variant, ids, axis)[0])
+            return out
+        before = snap()
+        # unusual calls: custom parsers (checked against the full load made with the same parsers)
+        for name in PARSE_FS:
+            for axis, ids in (("observation", ["O3", "O1"]), ("sample", ["S2", "S4"])):
+                check_case(ctx, fx, "h5", ids, axis, opts={"parse_fs": name}, tags=tags)
+                check_case(ctx, fx, "h5nomd", ids, axis, opts={"parse_fs": name}, tags=tags)
+        with h5py.File(fx.path, "r") as h:
+            full_nomd = core.table_obs(Table.from_hdf5(h, subset_with_metadata=False))
+        if full_nomd != fx.full_h5_obs:
+            ctx.diverge({"input": {"spec": a}}, "from_hdf5(subset_with_metadata=False) without ids is not the full table",
+                        tags)
+        after = snap()
+        if before != after:
+            ctx.diverge({"input": {"spec": a}}, "default subset reads changed after calls with custom parse_fs", tags,
+                        detail={"before": before, "after": after})
+        for axis, ids in (("observation", ["O3", "O1"]), ("sample", ["S2", "S4"]), ("sample", ["S3"])):
+            for variant in ("h5", "parseh5", "cmdh5", "h5nomd"):
+                check_case(ctx, fx, variant, ids, axis, tags=tags)
+        check_case(ctx, fx, "cmdh5", ["S2", "S4"], "sample", cli=True, tags=tags + ["cli"])
+    finally:
+        fx.close()
+    # the same path now holds another table: IDs partly shared, other order, other shape
+    n += 1
+    fx2 = Fixture(b, "csr", "x", n, name="reuse.biom")
+    try:
+        for axis, ids in (("observation", ["O3", "O1"]), ("sample", ["S4"]), ("sample", ["S1", "S4"]),
+                          ("observation", ["P9"])):
+            for variant in ("h5", "parseh5", "cmdh5", "h5nomd"):
+                check_case(ctx, fx2, variant, ids, axis, tags=tags + ["path-reuse"])
+        check_case(ctx, fx2, "cmdh5", ["S1"], "sample", cli=True, tags=tags + ["path-reuse", "cli"])
+        check_case(ctx, fx2, "cmdh5", ["S2", "S1"], "sample", tags=tags + ["path-reuse", "unknown-id"])
+        # ... and then a JSON document at a path that carried HDF5 a moment ago
+        jpath = os.path.join(TMP, "reuse2.biom")
+        fx3 = Fixture(a, "dense", "x", n + 1, name="reuse2.biom")
+        fx3.close()
+        check_case(ctx, fx2, "cmdjson", ["S1"], "sample", cli=True, inj_path=jpath, tags=tags + ["path-reuse", "cli"])
+        check_case(ctx, fx2, "cmdjson", ["P9", "O3"], "observation", cli=True, inj_path=jpath,
+                   tags=tags + ["path-reuse", "cli"])
+    finally:
+        fx2.close()
+    ctx.count("stream=process-state")
+    return n + 1
 
 
 def run(ctx):
@@ -657,19 +953,26 @@ def run(ctx):
                     check_case(ctx, fx, "cmdjson", ids, axis, ser=ser, tags=["special-strings"])
             ctx.count("stream=recorded-findings")
             fx.close()
+        # 2a. process-level state / path re-use: early in the run, before the default calls of the main stream
+        n = state_stream(ctx, rng, n)
         # 2b. wide axes (9-16 vectors), kept positions spread over the range
         if first or not quick:
             n = wide_stream(ctx, rng, n, quick)
+        # 2c. sizes: >= 64 IDs on an axis, a text >= 64 KiB
+        if first or not quick:
+            n = large_stream(ctx, rng, n, quick)
         # 3. main stream
-        n_tables = 45 if quick else max(60, 1400 // getattr(ctx, "worker", (0, 1))[1])
+        n_tables = 35 if quick else max(40, 520 // getattr(ctx, "worker", (0, 1))[1])
         routes = ["dense", "csr", "csc", "coo", "csr_unsorted", "csr_zeros", "sort_roundtrip", "lil"]
         gens = ["BIOM-Format 2.1", "x", "généré par é"]
         for k in range(n_tables):
             n += 1
             big = (k % 5 == 4)
             spec = gen_spec(rng, 8 if big else 4, 8 if big else 4)
-            fx = Fixture(spec, routes[k % len(routes)], rng.choice(gens), n)
+            fx = Fixture(spec, routes[k % len(routes)], rng.choice(gens), n,
+                         poke=rng.randrange(10 ** 6) if k % 3 else None)
             ctx.count("stream=main")
+            ctx.count("poked=%s" % ("yes" if fx.poked else "no"))
             sers = MAIN_SERS + (["tab-noascii", "indent1"] if k % 6 == 0 else [])
             try:
                 run_fixture(ctx, fx, rng, quick, sers=sers)
@@ -701,14 +1004,14 @@ def replay(ctx, rec):
     inp = case["input"]
     os.makedirs(TMP, exist_ok=True)
     try:
-        fx = Fixture(inp["spec"], inp["route"], inp["gen"], 0)
+        fx = Fixture(inp["spec"], inp["route"], inp["gen"], 0, poke=inp.get("poke"))
         try:
             if inp["variant"] == "text":
                 check_text(ctx, fx, inp["ids"], inp["axis"], inp["ser"])
             else:
                 check_case(ctx, fx, inp["variant"], inp["ids"], inp["axis"], ser=inp.get("ser", "writer"),
                            how=inp.get("how", "list"), form=inp.get("form", "str"), cli=inp.get("cli", False),
-                           tags=["replay"])
+                           opts=inp.get("opts") or None, tags=["replay"])
         finally:
             fx.close()
     finally:
